@@ -667,6 +667,112 @@ def judge_o_subspace(inp, obs, lr):
     return None
 
 
+# ---- composite (array-valued) segments and geodesics: every unit of the array must satisfy the property ---------------
+def gen_o_composite(rng, n):
+    for _ in range(n):
+        dim = rng.choice([2, 2, 2, 3, 4])
+        kind = rng.choice(["segment", "geodesic", "geodesic"])
+        shape = rng.choice([[2], [3], [5], [8], [2, 3]])
+        cnt = int(np.prod(shape))
+        # "wrap": most units have the arc crossing angle 0 as seen from the circle centre (centre on the negative
+        # x-side, ideal endpoints around angle pi), the boundary case of the angle normalisation
+        mode = rng.choice(["random", "wrap", "mixed"])
+        units = []
+        for j in range(cnt):
+            wrap = mode == "wrap" or (mode == "mixed" and rng.random() < 0.5)
+            while True:
+                if wrap:
+                    mid = math.pi + rng.uniform(-0.5, 0.5)
+                    half = rng.uniform(0.3, 1.2)
+                    e1 = [math.cos(mid - half), math.sin(mid - half)] + [0.0] * (dim - 2)
+                    e2 = [math.cos(mid + half), math.sin(mid + half)] + [0.0] * (dim - 2)
+                    if dim > 2:
+                        jit = np.array([0.0, 0.0] + [rng.uniform(-0.3, 0.3) for _ in range(dim - 2)])
+                        e1 = ((np.array(e1) + jit) / np.linalg.norm(np.array(e1) + jit)).tolist()
+                        e2 = ((np.array(e2) - jit) / np.linalg.norm(np.array(e2) - jit)).tolist()
+                else:
+                    e1, e2 = G.fsphere(rng, dim), G.fsphere(rng, dim)
+                a1, a2 = np.array(e1), np.array(e2)
+                if np.linalg.norm(a1 - a2) < 0.3 or np.linalg.norm(a1 + a2) < 0.3 or a1[0] > 0.8 or a2[0] > 0.8:
+                    continue
+                break
+            if kind == "segment":
+                t1, t2 = sorted([rng.uniform(0.08, 0.92), rng.uniform(0.08, 0.92)])
+                if t2 - t1 < 0.1:
+                    t1, t2 = 0.2, 0.8
+                if rng.random() < 0.5:
+                    t1, t2 = t2, t1
+                k1 = (t1 * a1 + (1 - t1) * a2).tolist()
+                k2 = (t2 * a1 + (1 - t2) * a2).tolist()
+            else:
+                k1, k2 = e1, e2
+                if rng.random() < 0.5:
+                    k1, k2 = k2, k1
+            units.append([k1, k2])
+        yield {"dim": dim, "kind": kind, "shape": shape, "units": units, "degrees": rng.random() < 0.5, "mode": mode}
+
+
+def run_o_composite(inp):
+    dim, shape = inp["dim"], tuple(inp["shape"])
+    U = np.array(inp["units"]).reshape(shape + (2, dim))
+    P1 = H.Point(U[..., 0, :].copy(), model="klein")
+    P2 = H.Point(U[..., 1, :].copy(), model="klein")
+    if inp["kind"] == "geodesic":
+        obj = H.Geodesic(H.IdealPoint(P1.proj_data.copy()), H.IdealPoint(P2.proj_data.copy()))
+    else:
+        obj = H.Segment(P1, P2)
+    out = {"shape_ok": list(obj.shape) == list(shape), "units": []}
+    flatU = U.reshape((-1, 2, dim))
+    for model in ("poincare", "halfspace"):
+        c, r = obj.sphere_parameters(model)
+        c, r = np.array(c, dtype=float).reshape((-1, dim)), np.array(r, dtype=float).reshape(-1)
+        e = np.array(obj.endpoint_coords(model), dtype=float).reshape((-1, 2, dim))
+        th = None
+        if dim == 2:
+            _, _, th = obj.circle_parameters(degrees=inp["degrees"], model=model)
+            th = np.array(th, dtype=float).reshape((-1, 2)) * (math.pi / 180 if inp["degrees"] else 1.0)
+        for j in range(len(flatU)):
+            rec = {"model": model, "j": j, "r": float(r[j]), "cmax": float(np.max(np.abs(c[j]))),
+                   "on_sphere": float(max(abs(np.linalg.norm(x - c[j]) - r[j]) for x in e[j])),
+                   "orth": float(abs(np.dot(c[j], c[j]) - 1 - r[j] ** 2) / (1 + r[j])) if model == "poincare" else float(abs(c[j][-1]))}
+            # the same unit on its own must report the same circle (composite = array of its units)
+            if dim == 2:
+                pts, extent = _arc_points(c[j], float(r[j]), th[j])
+                rec["extent"] = float(extent)
+                rec["arc_ends"] = float(np.max(np.abs(np.array(sorted([pts[0].tolist(), pts[-1].tolist()])) - np.array(sorted(e[j].tolist())))))
+                rec["inside"] = float(max(np.linalg.norm(q) for q in pts) - 1) if model == "poincare" else float(-min(q[1] for q in pts))
+                if inp["kind"] == "segment":
+                    A, B = H.Point(flatU[j, 0].copy(), model="klein"), H.Point(flatU[j, 1].copy(), model="klein")
+                    tot = _d(A, B)
+                    rec["on_segment"] = float(max(abs(_d(A, H.Point(q, model=model)) + _d(H.Point(q, model=model), B) - tot) for q in pts[1:-1]))
+                    rec["tot"] = tot
+                # wraps: sorted angles in [0, 2pi) differ by more than pi
+                t0, t1 = sorted([(x % (2 * math.pi)) for x in np.arctan2(e[j][:, 1] - c[j][1], e[j][:, 0] - c[j][0])])
+                rec["wraps"] = bool(t1 - t0 > math.pi)
+            out["units"].append(rec)
+    return out
+
+
+def judge_o_composite(inp, obs, lr):
+    tags = {"kind": inp["kind"], "dim": inp["dim"], "composite": True, "count": int(np.prod(inp["shape"]))}
+    if "exc" in obs:
+        return {"expected": "parameters for every unit", "observed": obs, "tags": dict(tags, exc=obs["exc"])}
+    if not obs["shape_ok"]:
+        return {"expected": {"shape": inp["shape"]}, "observed": "other shape", "tags": dict(tags, what="shape")}
+    nwrap = sum(1 for u in obs["units"] if u.get("wraps") and u["model"] == "poincare")
+    for u in obs["units"]:
+        t = dict(tags, model=u["model"], wrapping_units=nwrap)
+        tol = LOOSE * (1 + u["r"]) * (1 + u["cmax"])
+        if not (math.isfinite(u["r"]) and u["on_sphere"] <= tol and u["orth"] <= tol):
+            return {"expected": "every unit: endpoints on its sphere, sphere orthogonal to the boundary", "observed": u, "tags": dict(t, what="sphere")}
+        if "arc_ends" in u:
+            if not (u["arc_ends"] <= 10 * tol and u["inside"] <= 10 * tol and u["extent"] <= math.pi + 1e-6):
+                return {"expected": "every unit: its own angles bound the inside arc between its own endpoints", "observed": u, "tags": dict(t, what="arc")}
+            if "on_segment" in u and not u["on_segment"] <= 1e-5 * (1 + u["tot"]) * (1 + u["r"]):
+                return {"expected": "every unit: arc points on its hyperbolic segment", "observed": u, "tags": dict(t, what="on_segment")}
+    return None
+
+
 CLAUSES = [
     Clause("ideal_corr", "corr", gen_ideal, run_ideal, judge_ideal, lean=lean_ideal, site="hyperbolic.Segment._compute_aux_data",
            budget={"quick": 120, "thorough": 3000}, what="Segment ideal endpoints vs Lean segmentIdeal over Q (dims 2-4, Klein-normalised and rescaled representatives)"),
@@ -681,6 +787,10 @@ CLAUSES = [
     Clause("segment_oracle", "oracle", gen_o_segment, run_o_segment, judge_o_segment, site="hyperbolic.Segment.circle_parameters",
            budget={"quick": 200, "thorough": 8000},
            what="segments/geodesics dims 2-4 both models: ideal endpoints null+collinear, sphere through endpoints, orthogonal; dim 2: degrees/radians, arc ends, arc inside, arc points on the segment; near-straight and rescaled"),
+    Clause("composite_oracle", "oracle", gen_o_composite, run_o_composite, judge_o_composite, site="hyperbolic.Segment.circle_parameters",
+           budget={"quick": 120, "thorough": 4000},
+           what="array-valued segments and geodesics (2-8 units, shapes rank 1-2, dims 2-4, both models, degrees/radians), many units whose arc crosses "
+                "angle 0 seen from the circle centre: every unit's sphere and angle pair must describe that unit"),
     Clause("horosphere_oracle", "oracle", gen_o_horo, run_o_horo, judge_o_horo, site="hyperbolic.Horosphere.sphere_parameters",
            budget={"quick": 150, "thorough": 5000}, what="horosphere sphere through the reference point, tangent at the centre (dims 2-4, both models); HorosphereArc angles (dim 2)"),
     Clause("subspace_oracle", "oracle", gen_o_subspace, run_o_subspace, judge_o_subspace, site="hyperbolic.Subspace.sphere_parameters",
